@@ -175,7 +175,14 @@ surv0_ctx_recv(void *arg, nni_aio *aio)
 	}
 
 	timeout = nni_aio_get_timeout(aio);
-	if ((timeout < 0) ||
+	if (aio->a_use_expire) {
+		// The caller gave an absolute time (nng_aio_set_expire), and
+		// the timeout is not used at all: it must not be later than
+		// the survey's deadline either.
+		if (aio->a_expire > ctx->expire) {
+			nni_aio_set_expire(aio, ctx->expire);
+		}
+	} else if ((timeout < 0) ||
 	    ((timeout > 0) && ((now + timeout) > ctx->expire))) {
 		// limit the timeout to the survey time (a zero timeout is
 		// a non-blocking receive, and stays that)
